@@ -136,6 +136,7 @@ func (e *MergeExp) GoString() string {
 func (e *MapExp) format(w stringWriter, prefix string) {
 	if e.Value == nil {
 		mustWriteString(w, KindNull)
+		return
 	}
 	if len(e.Value) > 0 {
 		mustWriteString(w, "{\n")
